@@ -378,10 +378,23 @@ theorem smear_toNat (v : UInt64) :
   simp only [smearN, UInt64.toNat_or, UInt64.toNat_shiftRight]
   rfl
 
+/-- the definition from the extracted shift list, written out (fails to build when the source's shift sequence changes) -/
+theorem nextPowerOfTwo_unfold (v : UInt64) :
+    nextPowerOfTwo v =
+      if v = 0 then (1 : UInt64) else
+      (let v : UInt64 := v - 1
+       let v : UInt64 := v ||| (v >>> 1)
+       let v : UInt64 := v ||| (v >>> 2)
+       let v : UInt64 := v ||| (v >>> 4)
+       let v : UInt64 := v ||| (v >>> 8)
+       let v : UInt64 := v ||| (v >>> 16)
+       let v : UInt64 := v ||| (v >>> 32)
+       v) + (1 : UInt64) := rfl
+
 /-- `nextPowerOfTwo v` is the least power of two `≥ v`, for every `v ≤ 2^63` (for larger `v` the C++ wraps to 0) -/
 theorem nextPowerOfTwo_spec (v : UInt64) (hv : v.toNat ≤ 2 ^ 63) :
     ∃ k, k ≤ 63 ∧ (nextPowerOfTwo v).toNat = 2 ^ k ∧ v.toNat ≤ 2 ^ k ∧ (1 < v.toNat → 2 ^ k < 2 * v.toNat) := by
-  unfold nextPowerOfTwo
+  rw [nextPowerOfTwo_unfold]
   by_cases h0 : v = 0
   · subst h0; exact ⟨0, by omega, by simp, by simp, by simp⟩
   · simp only [h0, if_false]
@@ -407,6 +420,33 @@ theorem nextPowerOfTwo_spec (v : UInt64) (hv : v.toNat ≤ 2 ^ 63) :
       · intro _
         rw [Nat.pow_succ]; omega
 
+/-- above `2^63` the 64-bit computation wraps: the smear gives `2^64 - 1` and `+ 1` gives 0 (capacity 0: such a ring
+refuses every push) -/
+theorem nextPowerOfTwo_wraps (v : UInt64) (hv : 2 ^ 63 < v.toNat) : nextPowerOfTwo v = 0 := by
+  rw [nextPowerOfTwo_unfold]
+  have h0 : v ≠ 0 := by
+    intro c; subst c; simp at hv
+  simp only [h0, if_false]
+  have h1 : (1 : UInt64) ≤ v := by rw [UInt64.le_iff_toNat_le]; show 1 ≤ v.toNat; omega
+  have hx : (v - 1).toNat = v.toNat - 1 := by rw [UInt64.toNat_sub_of_le _ _ h1]; rfl
+  have hlt := UInt64.toNat_lt v
+  apply UInt64.toNat_inj.mp
+  rw [UInt64.toNat_add, smear_toNat, hx]
+  have hx0 : v.toNat - 1 ≠ 0 := by omega
+  rw [smearN_eq _ hx0 (by omega)]
+  have hL : (v.toNat - 1).log2 = 63 := by
+    have a : (v.toNat - 1).log2 < 64 := (Nat.log2_lt hx0).mpr (by omega)
+    have b : ¬ (v.toNat - 1).log2 < 63 := by
+      intro c
+      have := (Nat.log2_lt hx0).mp c
+      omega
+    omega
+  rw [hL]
+  decide
+
+/-- the model's `resize` (evaluated from the extracted expression trees) is the hand-written function on this source -/
+theorem resize_unfold {α : Type} (r : Ring α) (n : UInt64) : resize r n = resizeRef r n := rfl
+
 /-! ### resize / clear / queries -/
 
 theorem contentOf_ofList {α : Type} (d : α) (xs : List α) (c : Nat) (h : xs.length ≤ c) :
@@ -423,7 +463,8 @@ theorem contentOf_ofList {α : Type} (d : α) (xs : List α) (c : Nat) (h : xs.l
 theorem resize_refines {α : Type} {r : Ring α} (h : WF r) (n : UInt64) (hn : n.toNat ≤ 2 ^ 63) :
     WF (resize r n).2 ∧ (abs r).step (.resize n) = (abs (resize r n).2, .count (resize r n).1.toNat) := by
   obtain ⟨k, hk, hc, _, _⟩ := nextPowerOfTwo_spec n hn
-  dsimp only [resize]
+  rw [resize_unfold]
+  dsimp only [resizeRef]
   have hle := h.le
   have hb := h.bound
   have hlt := UInt64.toNat_lt r.head
@@ -542,7 +583,7 @@ theorem step_head_le {α : Type} {r : Ring α} (h : WF r) (o : Op α) (ho : o.ok
     show (r.head + UInt64.ofNat m).toNat ≤ _
     rw [toNat_add_ofNat _ _ (by omega)]; omega
   | resize n =>
-    simp only [step, resize, Op.weight]
+    simp only [step, resize_unfold, resizeRef, Op.weight]
     have hs := sub_toNat h
     show (if r.head - r.tail < nextPowerOfTwo n then r.head - r.tail else nextPowerOfTwo n).toNat ≤ _
     split
